@@ -10,6 +10,8 @@ type qNode struct {
 	kind   int // 0 print 1 let value 2 let content 3 if 4 foreach 5 call
 	name   string
 	body   []*qNode
+	alt    []*qNode // foreach: the {ifempty} block (nil: none)
+	hasAlt bool
 	callee int // 0 .u (optional a, b, k)  1 .r (required q, optional a)  2 .nope (does not exist)
 	data   int // 0 none 1 all 2 $m
 	param  int // 0 none 1 k 2 zz (undeclared) 3 q ; value or content by pcont
@@ -57,7 +59,12 @@ func (g *c07Gen) node(depth int) *qNode {
 			return &qNode{kind: 1, name: c07CallLetNames[verifChoose(len(c07CallLetNames))]}
 		case 2:
 			if depth > 0 {
-				return &qNode{kind: 4, body: g.list(depth-1, 2)}
+				n := &qNode{kind: 4, body: g.list(depth-1, 2)}
+				if verifChoose(2) == 1 {
+					// (the loop variable is not in scope in the {ifempty} block)
+					n.hasAlt, n.alt = true, g.list(depth-1, 1)
+				}
+				return n
 			}
 		}
 		n := &qNode{kind: 5, callee: verifChoose(2), data: verifChoose(2)}
@@ -119,7 +126,11 @@ func c07Src(ns []*qNode) string {
 		case 3:
 			s += "{if $" + n.name + "}" + c07Src(n.body) + "{/if}"
 		case 4:
-			s += "{foreach $i in $l}" + c07Src(n.body) + "{/foreach}"
+			s += "{foreach $i in $l}" + c07Src(n.body)
+			if n.hasAlt {
+				s += "{ifempty}" + c07Src(n.alt)
+			}
+			s += "{/foreach}"
 		case 5:
 			s += "{call " + c07Callees[n.callee]
 			switch n.data {
@@ -237,6 +248,11 @@ func (c *c07Check) walk(ns []*qNode) {
 			c.walk(n.body)
 			c.pop()
 			c.loops--
+			if n.hasAlt {
+				c.push()
+				c.walk(n.alt)
+				c.pop()
+			}
 		case 5:
 			if n.callee == 2 {
 				c.rejected = true // rule: the callee exists
